@@ -131,3 +131,83 @@ func ruleQueryBeforeCursor(c *Ctx) {
 	}
 	c.census("I-QUERY", "helpers that cut the cursor line at the converted column and return text", n, 1)
 }
+
+// ruleTreeMember (H-MEMBER): the root of a tree is a member of it.  A ResolvedJournal keeps its root journal in
+// Primary and only the included files in Files.  Where the server decides by a comma-ok lookup in Files whether a
+// document belongs to the workspace's tree (to answer from that tree or from the document's own), the same
+// function also compares the document's path with the workspace's root journal path - otherwise requests made from
+// the root document fall out of the workspace tree: they are answered from a tree re-read from disk, without the
+// unsaved edits of the included files the workspace holds.
+func ruleTreeMember(c *Ctx) {
+	if c.ranOnce("ruleTreeMember") {
+		return
+	}
+	spk := c.P.SSAPkg("internal/server")
+	n := 0
+	for _, f := range c.P.ModuleFuncs() {
+		top := f
+		for top.Parent() != nil {
+			top = top.Parent()
+		}
+		if top.Pkg != spk {
+			continue
+		}
+		var lookups []*ssa.Lookup
+		rootCmp := false
+		for _, b := range f.Blocks {
+			for _, ins := range b.Instrs {
+				switch x := ins.(type) {
+				case *ssa.Lookup:
+					if !x.CommaOk {
+						continue
+					}
+					ld, ok := x.X.(*ssa.UnOp)
+					if !ok || ld.Op != token.MUL {
+						continue
+					}
+					fa, ok := ld.X.(*ssa.FieldAddr)
+					if !ok || !typeHasSuffix(fa.X.Type(), "include.ResolvedJournal") || fieldVarOfAddr(fa).Name() != "Files" {
+						continue
+					}
+					// only membership tests: the looked-up journal itself is not used
+					usedValue := false
+					if x.Referrers() != nil {
+						for _, r := range *x.Referrers() {
+							if ex, ok := r.(*ssa.Extract); ok && ex.Index == 0 && ex.Referrers() != nil && len(*ex.Referrers()) > 0 {
+								usedValue = true
+							}
+						}
+					}
+					if !usedValue {
+						lookups = append(lookups, x)
+					}
+				case *ssa.BinOp:
+					if x.Op != token.EQL && x.Op != token.NEQ {
+						continue
+					}
+					for _, op := range []ssa.Value{x.X, x.Y} {
+						for v := range backSlice(op) {
+							if call, ok := v.(*ssa.Call); ok {
+								if cal := call.Call.StaticCallee(); cal != nil && calleeNameIs(cal, "workspace.Workspace).RootJournalPath") {
+									rootCmp = true
+								}
+							}
+						}
+					}
+				}
+			}
+		}
+		for range lookups {
+			n++
+		}
+		if len(lookups) > 0 {
+			c.check(rootCmp, "H-MEMBER", funcName(f), "membership in a tree's Files is completed by a comparison with the root path", lookups[0].Pos(),
+				"the function that tests Files membership also compares with Workspace.RootJournalPath()",
+				"a document is taken to belong to the workspace's tree only if it is in ResolvedJournal.Files - but the root journal is kept in Primary, not in Files: requests made from the root document are answered from another tree (re-read from disk, without the unsaved edits of included files the workspace holds)")
+		}
+	}
+	c.note("H-MEMBER: membership tests in ResolvedJournal.Files in the server: %d", n)
+	if n == 0 {
+		c.ok("H-MEMBER", "server", "no membership test in a tree's Files", token.NoPos, "the server does not decide tree membership by a lookup in Files")
+	}
+}
